@@ -20,9 +20,21 @@ pub struct HashMap<K, V> {
     vals: [MaybeUninit<V>; CAP],
 }
 
-impl<K, V> Clone for HashMap<K, V> {
+impl<K: Clone, V: Clone> Clone for HashMap<K, V> {
+    /// Slot-wise clone through the element types' own `Clone` (a bitwise `ptr::read` of slots that
+    /// live in a heap object is mis-modelled by CBMC when the content is symbolic).
     fn clone(&self) -> Self {
-        unsafe { std::ptr::read(self) }
+        let mut m = Self::default();
+        let mut i = 0;
+        while i < CAP {
+            if self.used[i] {
+                m.used[i] = true;
+                m.keys[i].write(self.key(i).clone());
+                m.vals[i].write(self.val(i).clone());
+            }
+            i += 1;
+        }
+        m
     }
 }
 impl<K, V> std::fmt::Debug for HashMap<K, V> {
